@@ -15,7 +15,7 @@ trap 'git -C /repo worktree remove --force "$wt" >/dev/null 2>&1; rm -rf "$wt" /
 cd "$wt"
 git apply --exclude=peg.peg.go "$patch" 2>/tmp/refcheck-ev-$$.apply || git apply --3way --exclude=peg.peg.go "$patch" || { cat /tmp/refcheck-ev-$$.apply; echo "PATCH DOES NOT APPLY"; exit 3; }
 go build -o "$wt/peg.bin" . || { echo "BUILD FAILS"; exit 4; }
-if ! git diff --quiet -- tree/peg.go tree/peg.go.tmpl peg.peg; then
+if ! git diff --quiet HEAD -- tree/peg.go tree/peg.go.tmpl peg.peg; then
   ./peg.bin -inline -switch peg.peg && go build -o "$wt/peg.bin" . && ./peg.bin -inline -switch peg.peg || { echo "REGENERATION FAILS"; exit 5; }
 fi
 rm -f peg.bin
